@@ -4069,10 +4069,13 @@ class TLSConnection(TLSRecordLayer):
                 if session and not session.extendedMasterSecret and \
                         settings.requireExtendedMasterSecret:
                     session = None
-                # likewise for a session that used encrypt-then-MAC when
-                # the settings no longer allow it
+                # likewise for a session that used encrypt-then-MAC or EMS
+                # when the settings no longer allow it
                 if session and session.encryptThenMAC and \
                         not settings.useEncryptThenMAC:
+                    session = None
+                if session and session.extendedMasterSecret and \
+                        not settings.useExtendedMasterSecret:
                     session = None
             except KeyError:
                 pass
